@@ -71,17 +71,39 @@ def nontrivial(kind, payload, r):
     return " Q 0 " in payload or " Q 1 " in payload
 
 
+def _spine(item):
+    head, _, rest = item.partition(" :")
+    return head, rest.split(" |")[0].split()
+
+
 def classify(kind, payload, r, m):
-    # the specification-level result uses the element maps the affine image requires; where the faithful model
-    # agrees with the implementation and only FlexPath items differ, the cause is FlexPath::transform (F7, property C10)
+    # FlexPath items whose spines all agree with the denotation but whose half widths / offsets / end extensions do
+    # not: that is what FlexPath::transform did before df9071a / a1ca73a (finding F7, fixed) - name it so that a
+    # regression is recognised; anything else is a hierarchy error
     try:
         flags = int(payload.split()[1])
     except Exception:
         flags = 0
     what = payload.rsplit(" Q ", 1)[1].split()[1] if " Q " in payload else "?"
-    if what == "F" and "M" in m and "I" in r and same(kind, r["I"], m["M"]):
-        if flags & 1 and flags & 4:
-            return "FlexPath::transform:x_reflection+offset"
-        if flags & 2:
-            return "FlexPath::transform:negative-magnification"
+    if what == "F" and "S" in m and "I" in r:
+        a = [x.strip() for x in r["I"].split(" ; ")][1:]
+        b = [x.strip() for x in m["S"].split(" ; ")][1:]
+        spines_agree = len(a) == len(b)
+        if spines_agree:
+            used = [False] * len(b)
+            for x in a:
+                hx, sx = _spine(x)
+                for j, y in enumerate(b):
+                    hy, sy = _spine(y)
+                    if not used[j] and hx == hy and len(sx) == len(sy) and all(_tok_same(p, q) for p, q in zip(sx, sy)):
+                        used[j] = True
+                        break
+                else:
+                    spines_agree = False
+                    break
+        if spines_agree:
+            if flags & 1 and flags & 4:
+                return "FlexPath::transform:x_reflection+offset"
+            if flags & 2:
+                return "FlexPath::transform:negative-magnification"
     return "shapes-vs-denotation"
